@@ -2918,6 +2918,13 @@ static TSQueryError ts_query__parse_pattern(
       return TSQueryErrorField;
     }
 
+    // A field needs a node pattern: a group that holds only predicates produced no step.
+    if (starting_step_index >= self->steps.size) {
+      capture_quantifiers_delete(&field_capture_quantifiers);
+      stream_reset(stream, field_name);
+      return TSQueryErrorSyntax;
+    }
+
     uint32_t step_index = starting_step_index;
     QueryStep *step = array_get(&self->steps, step_index);
     for (;;) {
@@ -2947,6 +2954,16 @@ static TSQueryError ts_query__parse_pattern(
   // Parse suffixes modifiers for this pattern
   TSQuantifier quantifier = TSQuantifierOne;
   for (;;) {
+    // A pattern without any step (a group that holds only predicates, e.g. `((#set! a b))`)
+    // has nothing that a quantifier or a capture could apply to: `steps[starting_step_index]`
+    // does not exist.
+    if (
+      starting_step_index >= self->steps.size &&
+      (stream->next == '+' || stream->next == '*' || stream->next == '?' || stream->next == '@')
+    ) {
+      return TSQueryErrorSyntax;
+    }
+
     // Parse the one-or-more operator.
     if (stream->next == '+') {
       quantifier = quantifier_join(TSQuantifierOneOrMore, quantifier);
